@@ -1,4 +1,5 @@
 import BeyondVerif.Model.ListenKinds
+import BeyondVerif.Generated.LightSrcF
 import BeyondVerif.Drv.Util
 namespace BeyondVerif.Drv.C10
 open BeyondVerif BeyondVerif.Drv BeyondVerif.Listen
@@ -23,42 +24,43 @@ def parseKind? (s : String) : Option Kind :=
     | ["anomaly", key] => if (Generated.ListenSrc.anomalyLabels.lookup key).isSome then some (.anomaly key) else none
     | _ => none
 
-/-- `<kind> <A> <B> <C> <D> <elev>` repeated -/
-def parseLsts? : List String → Option (List Lst)
+/-- `<kind> <A> <B> <C> <D> <elev>` repeated: a listener of the given class whose own frame / station has the components
+A–D; `<kind>@ - - - - 0`: the same class created with `frame=None` -/
+def parseSpecs? : List String → Option (List Spec)
   | [] => some []
   | k :: a :: b :: c :: d :: e :: rest => do
-    let k ← parseKind? k
-    let a ← parseInts? a; let b ← parseInts? b; let c ← parseInts? c; let d ← parseInts? d
-    let e ← e.toInt?
-    let more ← parseLsts? rest
-    pure (mkLst k ⟨evalPoly a, evalPoly b, evalPoly c, evalPoly d, e⟩ :: more)
+    let more ← parseSpecs? rest
+    match k.splitOn "@" with
+    | [base, ""] =>
+      let k ← parseKind? base
+      if a == "-" && b == "-" && c == "-" && d == "-" && e == "0" then pure ((k, none) :: more) else none
+    | _ =>
+      let k ← parseKind? k
+      let a ← parseInts? a; let b ← parseInts? b; let c ← parseInts? c; let d ← parseInts? d
+      let e ← e.toInt?
+      pure ((k, some ⟨evalPoly a, evalPoly b, evalPoly c, evalPoly d, e⟩) :: more)
   | _ => none
 
-/-- the same, keeping the kind and the channels apart -/
-def parseKinds? : List String → Option (List (Kind × Chan))
-  | [] => some []
-  | k :: a :: b :: c :: d :: e :: rest => do
-    let k ← parseKind? k
-    let a ← parseInts? a; let b ← parseInts? b; let c ← parseInts? c; let d ← parseInts? d
-    let e ← e.toInt?
-    let more ← parseKinds? rest
-    pure ((k, ⟨evalPoly a, evalPoly b, evalPoly c, evalPoly d, e⟩) :: more)
-  | _ => none
+/-- `<A> <B> <C> <D>`: components of a frame (elevation / latitude, its rate, range rate, mask) -/
+def parseChan? (a b c d : String) : Option Chan := do
+  let a ← parseInts? a; let b ← parseInts? b; let c ← parseInts? c; let d ← parseInts? d
+  pure ⟨evalPoly a, evalPoly b, evalPoly c, evalPoly d, 0⟩
 
 def showItem (it : Item) : String :=
   match it.ev with
   | none => s!"{it.t}/-"
   | some (i, lab) => s!"{it.t}/{i}/{lab}"
 
-/-- `c10 <samples> <kind A B C D elev>…` : the whole output stream of `iter(dates=samples, listeners=…)` -/
+/-- `c10 <samples> <own A B C D> <kind A B C D elev>…` : the whole output stream of `iter(dates=samples, listeners=…)`;
+`own`: components of the states in the frame the propagator yields them in (read by the `frame=None` listeners) -/
 def iterOp (args : List String) : String :=
   match args with
-  | s :: rest =>
-    match parseInts? s, parseLsts? rest with
-    | some samples, some ls =>
+  | s :: a :: b :: c :: d :: rest =>
+    match parseInts? s, parseChan? a b c d, parseSpecs? rest with
+    | some samples, some own, some specs =>
       -- listeners start with an arbitrary state: `iter` clears it
-      joinWith ";" ((Listen.iter ls (ls.map (fun _ => some 12345)) samples).map showItem)
-    | _, _ => "bad-op"
+      joinWith ";" ((Listen.iterS own specs (specs.map (fun _ => some 12345)) samples).map showItem)
+    | _, _, _ => "bad-op"
   | _ => "bad-op"
 
 /-- `c10b <b> <e> <poly>` : `_bisect` alone: final begin, final end, number of loop passes -/
@@ -72,23 +74,63 @@ def bisectOp (args : List String) : String :=
     | _, _, _ => "bad-op"
   | _ => "bad-op"
 
-/-- `c10v <events 0|1> <hasMask 0|1> <samples> <A> <B> <C> <D> <user listeners…>` : the stream of
-`TopocentricFrame.visibility`; A–D are the components in the station's frame (elevation, its rate, range rate, mask) -/
+/-- `c10v <events 0|1> <hasMask 0|1> <samples> <own A B C D> <station A B C D> <user listeners…>` : the stream of
+`TopocentricFrame.visibility`; the second group are the components in the station's frame (elevation, its rate, range
+rate, mask) -/
 def visOp (args : List String) : String :=
   match args with
-  | ev :: hm :: s :: a :: b :: c :: d :: rest =>
-    match parseInts? s, parseInts? a, parseInts? b, parseInts? c, parseInts? d, parseKinds? rest with
-    | some samples, some a, some b, some c, some d, some user =>
-      let n := user.length + (if ev == "1" then (Listen.stationKinds (hm == "1")).length else 0)
-      joinWith ";" ((Listen.visibility user ⟨evalPoly a, evalPoly b, evalPoly c, evalPoly d, 0⟩ (hm == "1") (ev == "1")
+  | ev :: hm :: s :: oa :: ob :: oc :: od :: a :: b :: c :: d :: rest =>
+    match parseInts? s, parseChan? oa ob oc od, parseChan? a b c d, parseSpecs? rest with
+    | some samples, some own, some sta, some user =>
+      let n := (Listen.visListeners user sta (hm == "1") (ev == "1")).length
+      joinWith ";" ((Listen.visibility own user sta (hm == "1") (ev == "1")
         (List.replicate n (some 12345)) samples).map showItem)
-    | _, _, _, _, _, _ => "bad-op"
+    | _, _, _, _ => "bad-op"
+  | _ => "bad-op"
+
+/-- labels travel with `_` for the space -/
+def unLabel (s : String) : String := s.replace "_" " "
+
+/-- `c10e <labels|-> <samples> <own A B C D> <listeners…>` : `events_iterator(iter(…), *labels)`; labels separated by `,` -/
+def eventsOp (args : List String) : String :=
+  match args with
+  | labs :: s :: a :: b :: c :: d :: rest =>
+    match parseInts? s, parseChan? a b c d, parseSpecs? rest with
+    | some samples, some own, some specs =>
+      let labels := if labs = "-" then [] else (labs.splitOn ",").map unLabel
+      joinWith ";" ((Listen.eventsIterator labels (Listen.iterS own specs (specs.map (fun _ => none)) samples)).map showItem)
+    | _, _, _ => "bad-op"
+  | _ => "bad-op"
+
+/-- `c10f <label> <offset> <samples> <own A B C D> <listeners…>` : `find_event(iter(…), label, offset)` -/
+def findOp (args : List String) : String :=
+  match args with
+  | lab :: off :: s :: a :: b :: c :: d :: rest =>
+    match off.toInt?, parseInts? s, parseChan? a b c d, parseSpecs? rest with
+    | some off, some samples, some own, some specs =>
+      match Listen.findEvent (Listen.iterS own specs (specs.map (fun _ => none)) samples) (unLabel lab) off with
+      | some it => showItem it
+      | none => "runtime-error"
+    | _, _, _, _ => "bad-op"
+  | _ => "bad-op"
+
+/-- `c10l <penumbra 0|1> <rsun> <rbody> <|x_sun|> <|x_sat|> <x_sun·x_sat>` (floats as bit patterns) :
+`LightListener.__call__` after its geometric inputs -/
+def lightOp (args : List String) : String :=
+  match args with
+  | [pen, a, b, c, d, e] =>
+    match fOfStr? a, fOfStr? b, fOfStr? c, fOfStr? d, fOfStr? e with
+    | some rsun, some rbody, some nsun, some nsat, some dot => fToStr (F.lightValue (pen == "1") rsun rbody nsun nsat dot)
+    | _, _, _, _, _ => "bad-op"
   | _ => "bad-op"
 
 def handle : List String → Option String
   | "c10v" :: args => some (visOp args)
   | "c10" :: args => some (iterOp args)
   | "c10b" :: args => some (bisectOp args)
+  | "c10e" :: args => some (eventsOp args)
+  | "c10f" :: args => some (findOp args)
+  | "c10l" :: args => some (lightOp args)
   | _ => none
 
 end BeyondVerif.Drv.C10
